@@ -107,7 +107,7 @@ fn front_end_phase(src: &str, validate: bool) -> &'static str {
         let toks = match rssl::preprocess::preprocess_fragment(src, FileName("main.rssl".into()), &mut sm) {
             Ok(t) => t,
             // the lexer runs inside the preprocessor
-            Err(rssl::preprocess::PreprocessError::LexerError(_)) => return "lexer",
+            Err(rssl::preprocess::PreprocessError::LexerError(..)) => return "lexer",
             Err(_) => return "preprocessor",
         };
         let toks = rssl::preprocess::prepare_tokens(&toks);
